@@ -242,7 +242,26 @@ impl Slot {
                             }
                         }
                     }
-                    return Ok(vec![WOutcome::Died(note)]);
+                    // a death counts when it repeats: a worker can also die of the machine's own
+                    // shortage of memory (seen under a heavily loaded host: "Fatal glibc error: failed
+                    // to register TLS destructor: out of memory" at process start), which says nothing
+                    // about the case — a case that really kills the process does so every time
+                    let mut last = note;
+                    for _ in 0..2 {
+                        std::thread::sleep(Duration::from_millis(300));
+                        match self.worker()?.try_batch(batch, Duration::from_secs(30)) {
+                            Ok(v) => return Ok(v),
+                            Err((true, _)) => {
+                                self.worker = None;
+                                return Ok(vec![WOutcome::Timeout]);
+                            }
+                            Err((false, n)) => {
+                                self.worker = None;
+                                last = n;
+                            }
+                        }
+                    }
+                    return Ok(vec![WOutcome::Died(last)]);
                 }
                 // bisect
                 let mid = batch.len() / 2;
